@@ -102,7 +102,7 @@ class C06(Prop):
             case['signals'] = sig_text(dict((k, [(t, rng.choice(lang.SMALL)) for (t, _) in base]) for k in names))
         return case
 
-    def gen_eq_mirror(self, rng):
+    def gen_eq_mirror(self, rng, kinds=('ct_on', 'ct_on', 'ct_off', 'dt_off', 'dt_on')):
         """Dense-time online, an overridden equality predicate on a signal that takes values at equal distances on
         both sides of the constant within one batch (its robustness -|x-c| repeats while the sample is new)."""
         a, b = rng.sample(['x', 'y', 'z'], 2)
@@ -122,12 +122,17 @@ class C06(Prop):
         n = rng.randint(4, 8)
         vals = [c0 + d for d in (-2.0, -1.0, 0.0, 1.0, 2.0)]
         sig = dict((k, [(Fr(i), rng.choice(vals)) for i in range(n)]) for k in (a, b))
-        return {'formula': f, 'kind': 'ct_on', 'sem': sem, 'io': io, 'signals': sig_text(sig),
+        kind = rng.choice(list(kinds))
+        if kind.startswith('dt'):
+            # (the same template for the discrete-time monitors: the samples of the integer grid as a trace)
+            return {'formula': f, 'kind': kind, 'sem': sem, 'io': io,
+                    'data': dict((k, [val for _, val in s_]) for k, s_ in sig.items())}
+        return {'formula': f, 'kind': kind, 'sem': sem, 'io': io, 'signals': sig_text(sig),
                 'cuts': sorted(rng.sample(range(1, n), rng.randint(0, 2)))}
 
     def gen(self, rng, ctx):
         r0 = rng.random()
-        if r0 < 0.05:
+        if r0 < 0.07:
             return self.gen_eq_mirror(rng)
         if r0 < 0.13:
             return self.gen_shared_term(rng)
